@@ -79,7 +79,7 @@ def shared_objects(ctx, report, status):
     report.count("shared_object_histories", len(recs))
 
 
-def launch(seed, n_cases, threads, parallel):
+def launch(seed, n_cases, threads, parallel, sibling_first=False):
     env = dict(os.environ)
     env["NUMBA_NUM_THREADS"] = str(threads)
     env["PANDORA_NUMBA_PARALLEL"] = "True" if parallel else "False"
@@ -87,7 +87,7 @@ def launch(seed, n_cases, threads, parallel):
     env["NUMBA_CACHE_DIR"] = os.path.join(core.VERIF, ".numba_cache", f"par{int(parallel)}")
     p = subprocess.Popen([sys.executable, "-m", "harness.impl.c18_worker"], cwd=core.VERIF, env=env,
                          stdin=subprocess.PIPE, stdout=subprocess.PIPE, stderr=subprocess.PIPE, text=True)
-    p.stdin.write(json.dumps({"seed": seed, "n_cases": n_cases}) + "\n")
+    p.stdin.write(json.dumps({"seed": seed, "n_cases": n_cases, "sibling_first": sibling_first}) + "\n")
     p.stdin.close()
     return p
 
@@ -148,12 +148,18 @@ def run(ctx, report, status):
     settings = [(1, True), (2, True), (4, True), (4, False)] if not ctx.thorough else \
         [(1, True), (2, True), (4, True), (16, True), (1, False), (4, False), (16, False), (3, True)]
     procs = [(s, launch(ctx.seed, n_cases, s[0], s[1])) for s in settings]
+    # one more process under the base setting in which every pipeline is preceded by its sibling (same steps and shapes,
+    # other parameter values) on another machine object: its products must equal the base process's
+    sib_proc = launch(ctx.seed, n_cases, settings[0][0], settings[0][1], sibling_first=True)
     results = {}
     for s, p in procs:
         recs, code, err = collect(p)
         if code != 0 or len(recs) != n_cases:
             status.problem("worker", f"worker {s} exited {code} with {len(recs)}/{n_cases} records", err)
         results[s] = recs
+    sib_recs, sib_code, sib_err = collect(sib_proc)
+    if sib_code != 0 or len(sib_recs) != n_cases:
+        status.problem("worker", f"sibling-first worker exited {sib_code} with {len(sib_recs)}/{n_cases} records", sib_err)
     base_key = settings[0]
     for i in range(n_cases):
         per = {s: (results[s][i] if i < len(results[s]) else None) for s in settings}
@@ -180,6 +186,13 @@ def run(ctx, report, status):
                 if r["hash_disp_flags"] != base["hash_disp_flags"]:
                     report.fail("parallel_off_same_disp_flags", "hash_differs", dict(case, setting=tag),
                                 {"base": base["hash_disp_flags"], "got": r["hash_disp_flags"]})
+        if i < len(sib_recs) and "skipped" not in sib_recs[i] and "hash_all" in sib_recs[i]:
+            report.hit("other_machines_no_effect")
+            report.count("sibling_first_cases")
+            if sib_recs[i]["hash_all"] != base["hash_all"]:
+                report.fail("other_machines_no_effect", "sibling_pipeline_run_before", dict(case, setting="sibling_first"),
+                            {"base": base["hash_all"], "after_sibling": sib_recs[i]["hash_all"], "sibling_ran": sib_recs[i].get("sibling_ran")},
+                            "the products of a pipeline differ when another machine ran the same steps with other parameter values before it in the process")
     report.count("settings", len(settings))
 
 
